@@ -111,7 +111,10 @@ fn err_class(e: &BlobError) -> &'static str {
         BlobError::NotFound(_) => "err not_found",
         BlobError::ChunkMissing(_) => "err chunk_missing",
         BlobError::EmptyData => "err empty_data",
-        BlobError::InvalidConfig(m) if m.contains("exceeds max") => "err too_large",
+        // by VARIANT, never by message wording (BUILDING.md "Error canonicalisation", rule 1): on a
+        // constructed in-memory `BlobStore` the only producer of `InvalidConfig` is the max_artifact_size
+        // refusal of `put` (tensor_blob/src/lib.rs:150; config validation happens in `new`)
+        BlobError::InvalidConfig(_) => "err too_large",
         _ => "err other",
     }
 }
